@@ -6,8 +6,8 @@ import common
 import vrun
 from common import canon_errors
 
-LEVEL = "translation_validation"
-COQ_FILES = ["theories/Model/Validate.v"]
+LEVEL = "proof"
+COQ_FILES = ['theories/Model/Validate.v', 'theories/Model/FactsOk.v', 'theories/Proofs/QueueProofs.v', 'theories/Properties/C01.v']
 FACT_GROUPS = ["F1", "F2", "F3", "F5", "F6", "F8"]
 ALLOWED_AXIOMS = []
 TRUSTED_BASE = [
